@@ -13,7 +13,7 @@ package fs
 //@   assigns f.new
 //@   ensures[C07.sync-file] result == nil ==> traced("fsync(file)")
 //@   ensures[C07.first-sync-syncs-dir] result == nil && old(f.new) == 0 ==> traced("fsync(file)", "open(dir)", "fsync(dir)")
-//@   ensures[C07.sync-marks-linked] result == nil ==> f.new == 1
+//@   ensures[C07.sync-marks-linked] result == nil ==> f.new != 0
 //@   ensures[C07.failed-file-sync-keeps-new] !traced("open(dir)") && result != nil ==> f.new == old(f.new)
 //@   ensures[C07.failed-sync-is-retried] result != nil ==> f.new == old(f.new)
 
